@@ -31,6 +31,11 @@ func prefixMountPoint(mountPoint string, t []byte) []byte {
 	copy(out[len(mountPoint)+1:], t)
 	return out
 }
+
+// PrefixMountPoint returns the topic as it is named inside the broker for the given mount point.
+func PrefixMountPoint(mountPoint string, t []byte) []byte {
+	return prefixMountPoint(mountPoint, t)
+}
 func trimMountPoint(mountPoint string, t []byte) []byte {
 	return t[len(mountPoint)+1:] // Trim mountpoint + /
 }
